@@ -15,9 +15,11 @@ ENGINES = [
 NOTES = ('Static analysis only: no registered check executes dnssector code or calls a solver. Each ./check re-extracts MIR facts from '
          "$VERIF_REPO (default /repo)'s working tree into a fresh temporary target directory. See DESIGN.md. "
          'One known finding is reported on every run (C06: D18, pointer chains deeper than the parser follows; known_findings.json). '
-         'The rules were exercised with 144 independently seeded breaking changes (seeded/) and 54 independently written behaviour-preserving '
-         'refactors (refactors/: 18 small everyday edits, all silent under all 18 checks; 18 medium, 17 silent; 18 heavy restructurings, 10 silent); the '
-         'restructurings that still raise an alarm although the property holds are listed in DESIGN.md section 7 and kept under selftest/pending.')
+         'The rules were exercised with 162 independently seeded breaking changes (seeded/; the last 18 hide the defect inside a refactoring '
+         'commit) and 87 behaviour-preserving refactors (refactors/: 18 small everyday edits, all silent under all 18 checks; two independent medium '
+         'waves, 17 of 18 silent each - the second one 16 of 18 as the checks stood, before anything was adjusted to it; 18 heavy restructurings, 10 '
+         'silent; 15 repaired halves of the hidden-defect wave, 13 silent while their seeded twins alarm); the restructurings that still raise an '
+         'alarm although the property holds are listed in DESIGN.md section 7 and kept under selftest/pending.')
 PENDING = 'rule engine for this property is not committed yet in this revision of /verif (see DESIGN.md section 6, build order); not claimed until it is'
 CHECKS = {
     'C16': {
